@@ -10,8 +10,8 @@ local notation "ISZ" => Memory.ISIZE_MAX
 
 /-- every action an outcome leads to, whatever the host answers, carries a Rust `Bytes` -/
 def OA (o : Outcome) : Prop :=
-  (∀ a s', o = .pure (.action a s') → dataLen a ≤ ISZ) ∧
-  (∀ op k resp a s', o = .host op k → k resp = .action a s' → dataLen a ≤ ISZ)
+  (∀ a s', o = .pure (.action a s') → ActOk2 a) ∧
+  (∀ op k resp a s', o = .host op k → k resp = .action a s' → ActOk2 a)
 
 theorem oa_pure_toDone (e : Exec Unit) : OA (.pure e.toDone) := by
   refine ⟨fun a s' heq => ?_, fun op k resp a s' heq => (nomatch heq)⟩
@@ -40,7 +40,7 @@ theorem oa_hostCall {β} (pre : M (HostOp × β)) (post : β → HostResp → M 
   | fault f => exact oa_fault _
 
 theorem oa_hostCallAction {β} (Qb : β → Prop) (pre : M (HostOp × β)) (post : β → HostResp → M Action) (s : IState)
-    (hb : BufOk s) (h1 : TB pre (fun x => Qb x.2)) (h2 : ∀ b r, Qb b → TB (post b r) (fun a => dataLen a ≤ ISZ)) :
+    (hb : BufOk s) (h1 : TB pre (fun x => Qb x.2)) (h2 : ∀ b r, Qb b → TB (post b r) (fun a => ActOk2 a)) :
     OA (hostCallAction pre post s) := by
   unfold hostCallAction
   cases hp : pre s with
@@ -93,7 +93,7 @@ theorem oa_callI (s : IState) (hb : BufOk s) : OA (callI s) := by
     refine tb_bind (tb_of_bp (bp_calcCallGas _ _ _ _)) (fun g _ => ?_)
     refine tb_bind (tb_of_bp (bp_gasCharge _)) (fun _ _ => ?_)
     refine tb_bind (tb_of_bp bp_getS) (fun s2 _ => ?_)
-    exact tb_pure hq
+    exact tb_pure ⟨hq, fun i hx => nomatch hx⟩
 
 theorem oa_callcodeI (s : IState) (hb : BufOk s) : OA (callcodeI s) := by
   unfold callcodeI
@@ -111,7 +111,7 @@ theorem oa_callcodeI (s : IState) (hb : BufOk s) : OA (callcodeI s) := by
     refine tb_bind (tb_of_bp (bp_calcCallGas _ _ _ _)) (fun g _ => ?_)
     refine tb_bind (tb_of_bp (bp_gasCharge _)) (fun _ _ => ?_)
     refine tb_bind (tb_of_bp bp_getS) (fun s2 _ => ?_)
-    exact tb_pure hq
+    exact tb_pure ⟨hq, fun i hx => nomatch hx⟩
 
 theorem oa_delegatecallI (s : IState) (hb : BufOk s) : OA (delegatecallI s) := by
   unfold delegatecallI
@@ -129,7 +129,7 @@ theorem oa_delegatecallI (s : IState) (hb : BufOk s) : OA (delegatecallI s) := b
     refine tb_bind (tb_of_bp (bp_calcCallGas _ _ _ _)) (fun g _ => ?_)
     refine tb_bind (tb_of_bp (bp_gasCharge _)) (fun _ _ => ?_)
     refine tb_bind (tb_of_bp bp_getS) (fun s2 _ => ?_)
-    exact tb_pure hq
+    exact tb_pure ⟨hq, fun i hx => nomatch hx⟩
 
 theorem oa_staticcallI (s : IState) (hb : BufOk s) : OA (staticcallI s) := by
   unfold staticcallI
@@ -147,7 +147,7 @@ theorem oa_staticcallI (s : IState) (hb : BufOk s) : OA (staticcallI s) := by
     refine tb_bind (tb_of_bp (bp_calcCallGas _ _ _ _)) (fun g _ => ?_)
     refine tb_bind (tb_of_bp (bp_gasCharge _)) (fun _ _ => ?_)
     refine tb_bind (tb_of_bp bp_getS) (fun s2 _ => ?_)
-    exact tb_pure hq
+    exact tb_pure ⟨hq, fun i hx => nomatch hx⟩
 
 theorem oa_create (c2 : Bool) (s : IState) (hb : BufOk s) : OA (.pure (createI c2 s).toDoneAction) := by
   refine ⟨fun a s' heq => ?_, fun op k resp a s' heq => (nomatch heq)⟩
